@@ -141,10 +141,14 @@ def gen_program(rng: random.Random, stats: dict) -> dict | None:
     if rng.random() < 0.55:
         pool = pg.VarPool(rng)
         par = pg.Parametrizer(rng, pool, p=rng.choice([0.3, 0.6]), exotic=0.35)
-        par.list_of_items = False   # (a stored call that can never be built: C08's finding F-C08-1)
+        par.list_of_items = False   # (refused at store time since the repair of F-C08-1)
+        par.slices = True
         split = rng.randrange(0, len(ops))
         ops2 = [copy.deepcopy(o) if i < split else par.op(o) for i, o in enumerate(ops)]
         if pool.decl:
+            if rng.random() < 0.15:      # a variable that is declared and never used
+                pool.fresh(rng.choice(["int", "float"]), rng.choice([1, 3]), [], "phase")
+                stats["decor"]["unused_variable"] = stats["decor"].get("unused_variable", 0) + 1
             pool.finish()
             ops = ops2
             for k, v in par.positions.items():
@@ -157,6 +161,11 @@ def gen_program(rng: random.Random, stats: dict) -> dict | None:
             decl = {n: dict(dtype=d["dtype"], size=d["size"], roles=d["roles"],
                             scalar=(d["size"] == 1 and rng.random() < 0.6)) for n, d in pool.decl.items()}
             builds = [dict(assign=a) for a in assigns]
+    if not decl and rng.random() < 0.1:
+        # a CONCRETE program whose sequence declares a variable it never uses
+        decl = {"unused": dict(dtype=rng.choice(["int", "float"]), size=rng.choice([1, 2]), roles=["phase"] * 2,
+                               scalar=False)}
+        stats["decor"]["unused_variable_concrete"] = stats["decor"].get("unused_variable_concrete", 0) + 1
     if mappable:
         if not builds:
             builds = [dict(assign={}) for _ in range(3)]
@@ -165,7 +174,10 @@ def gen_program(rng: random.Random, stats: dict) -> dict | None:
             pairs = list(zip(ctx.qids[:k], rng.sample(range(len(ctx.coords)), k)))
             rng.shuffle(pairs)
             b["qubits"] = pairs
-    case.update(ops=ops, decl=decl, builds=builds, split=split)
+    if mappable and decl and builds and not builds[0]["assign"]:
+        for b in builds:    # (mappable + only an unused variable: it still needs a value at build time)
+            b["assign"] = {n: [0] * d["size"] for n, d in decl.items()}
+    case.update(ops=ops, decl=decl, builds=builds, split=split, kw_style=rng.random() < 0.3)
     return case
 
 
@@ -174,6 +186,16 @@ def build_sequence(ctx: pg.Ctx, case: dict):
     import props.C08 as c8
 
     ops = case["ops"]
+    pg.KW_STYLE = bool(case.get("kw_style", False))
+    try:
+        return _build_sequence(ctx, case, ops)
+    finally:
+        pg.KW_STYLE = False
+
+
+def _build_sequence(ctx: pg.Ctx, case: dict, ops: list):
+    import props.C08 as c8
+
     for _attempt in range(3):
         seq = ctx.new_template()
         vars_ = c8.declare_vars(seq, case["decl"]) if case["decl"] else {}
@@ -306,6 +328,49 @@ def compare(ctx: pg.Ctx, a: Sequence, b: Sequence, case: dict, codec: str, res) 
             fails.append(Fail("build", f"{codec}: build {bi}: {ds}", dict(key, kind="samples")))
             break
         res.compared += 1
+        if codec == "abstract" and not res.built_done:
+            res.built_done = True
+            fails += roundtrip_built(ctx, ba, case, res)
+    return fails
+
+
+def roundtrip_built(ctx: pg.Ctx, built: Sequence, case: dict, res) -> list[Fail]:
+    """"Serialising any sequence (built or parametrized ...)": the BUILT sequence through both codecs."""
+    fails = []
+    qids = list(built.register.qubit_ids)
+    ref = pg.seq_snapshot(built, ctx, qids)
+    ref.pop("chan_order")
+    for codec, enc, dec in (("abstract", lambda q: q.to_abstract_repr(), Sequence.from_abstract_repr),
+                            ("legacy", lambda q: q._serialize(), Sequence._deserialize)):
+        if codec == "legacy" and case["device"] == "custom":
+            continue
+        try:
+            with warnings.catch_warnings():
+                warnings.simplefilter("ignore")
+                doc = enc(built)
+        except Exception as e:  # noqa: BLE001
+            fails.append(Fail("serialise-raises", f"built sequence, {codec}: {type(e).__name__}: {str(e)[:160]}",
+                              dict(codec=codec, err=type(e).__name__, cause=cause_of(e, case["ops"]), built=True)))
+            continue
+        try:
+            with warnings.catch_warnings():
+                warnings.simplefilter("ignore")
+                back = dec(doc)
+        except Exception as e:  # noqa: BLE001
+            fails.append(Fail("deserialise-raises", f"built sequence, {codec}: {type(e).__name__}: {str(e)[:160]}",
+                              dict(codec=codec, err=type(e).__name__, cause=cause_of(e, case["ops"]), built=True)))
+            continue
+        got = pg.seq_snapshot(back, ctx, qids)
+        got.pop("chan_order")
+        d = pg.diff_tol(ref, got, "", TOL)
+        if d:
+            fails.append(Fail("timeline", f"built sequence, {codec}: snapshot{d}", dict(codec=codec, kind="built")))
+            continue
+        ds = pg.diff_samples(pg.seq_samples(built), pg.seq_samples(back), TOL)
+        if ds:
+            fails.append(Fail("timeline", f"built sequence, {codec}: {ds}", dict(codec=codec, kind="built")))
+            continue
+        res.compared += 1
     return fails
 
 
@@ -322,6 +387,7 @@ class CaseResult:
         self.doc_ops = collections.Counter()
         self.parametrized = False
         self.doc = None
+        self.built_done = False
 
 
 ROUND_RE = re.compile(r"No abstract representation for 'round'")
@@ -406,6 +472,19 @@ def run_case(case: dict, codecs=("abstract", "legacy")) -> CaseResult:
                                       dict(codec="abstract", err=type(e).__name__, cause=cause_of(e, used))))
             if dec is not None:
                 res.fails += compare(ctx, seq, dec, case, "abstract", res)
+                if case["device"] != "custom" and not res.fails:
+                    # the decoded sequence (every object of which was made by the deserializer, with keyword
+                    # arguments) through the legacy codec
+                    try:
+                        with warnings.catch_warnings():
+                            warnings.simplefilter("ignore")
+                            dec2 = Sequence._deserialize(dec._serialize())
+                        res.fails += compare(ctx, seq, dec2, case, "abstract+legacy", res)
+                    except Exception as e:  # noqa: BLE001
+                        res.fails.append(Fail("serialise-raises",
+                                              f"legacy codec on the decoded sequence: {type(e).__name__}: {str(e)[:160]}",
+                                              dict(codec="abstract+legacy", err=type(e).__name__,
+                                                   cause=cause_of(e, used))))
                 try:
                     with warnings.catch_warnings():
                         warnings.simplefilter("ignore")
